@@ -522,9 +522,12 @@ def is_structseq_class(cls: type, /) -> bool:
         # Check direct inheritance from `tuple` rather than `issubclass(cls, tuple)`
         and cls.__bases__ == (tuple,)
         # Check PyStructSequence members
-        and isinstance(getattr(cls, 'n_fields', None), int)
-        and isinstance(getattr(cls, 'n_sequence_fields', None), int)
-        and isinstance(getattr(cls, 'n_unnamed_fields', None), int)
+        # pylint: disable-next=unidiomatic-typecheck
+        and type(getattr(cls, 'n_fields', None)) is int
+        # pylint: disable-next=unidiomatic-typecheck
+        and type(getattr(cls, 'n_sequence_fields', None)) is int
+        # pylint: disable-next=unidiomatic-typecheck
+        and type(getattr(cls, 'n_unnamed_fields', None)) is int
     ):
         # Check the type does not allow subclassing
         if platform.python_implementation() == 'PyPy':  # pragma: pypy cover
